@@ -277,3 +277,29 @@ func VerifC20_EventOrder(cs int) {
 	VsAssert("burial-before-death-iff-recorded-so", VsIff(vHas(keys, "IncorrectEventOrder|I1||BURI-before-DEAT"), buri.dayNo() < death.dayNo()))
 	VsAssert("an-unparsable-birth-is-reported-once-and-hides-nothing", vCount(keys, "UnparsableDate") == wantUnparsable)
 }
+
+// VerifC20_BadMarriage: a marriage whose date cannot be used (unparsable text, an impossible day, a
+// phrase, no date at all) says nothing about the age at marriage: no married-too-young / too-old
+// warning, and exactly one unparsable-date warning when there is a text that cannot be interpreted. cs%4: the form.
+func VerifC20_BadMarriage(cs int) {
+	hb := vNewExactDay("husbandbirth", 1800, 1960)
+	marr, wantUnparsable := "", 0
+	switch cs % 4 {
+	case 0:
+		marr, wantUnparsable = "2 DATE sometime in spring\n", 1
+	case 1:
+		marr, wantUnparsable = "2 DATE 31 Feb 1850\n", 1
+	case 2:
+		// a phrase is not a date that can be interpreted either (VerifC20_Individual counts it the same way)
+		marr, wantUnparsable = "2 DATE (in the year of the flood)\n", 1
+	}
+	text := vIndi("I1", "Hus /Band/", "M", vEvent("BIRT", hb.text)) + vIndi("I2", "Wi /Fe/", "F", vEvent("BIRT", "3 Apr 1802")) +
+		"0 @F1@ FAM\n1 HUSB @I1@\n1 WIFE @I2@\n1 MARR\n" + marr
+	doc, err := NewDocumentFromString(text)
+	VsAssume(err == nil)
+	keys := vWarningKeys(doc)
+	VsObserve(strings.Join(keys, ";"))
+	VsReach("bad-marriage-checked")
+	VsAssert("no-age-at-marriage-warning-without-a-usable-marriage-date", vCount(keys, "MarriedOutOfRange") == 0)
+	VsAssert("unusable-marriage-date-is-reported-once-if-unparsable", vCount(keys, "UnparsableDate") == wantUnparsable)
+}
